@@ -918,6 +918,10 @@ func (env *Env) call(x *SExpr) Value {
 			return Value{T: tString, S: []string{"(strofbytes " + v.S[0] + ")"}}
 		}
 		specFail("strof of %s", v.T)
+	case "pathjoin":
+		a, b := env.eval(args[0]), env.eval(args[1])
+		e.ensureStrDecls()
+		return Value{T: tString, S: []string{"(pathjoin " + a.S[0] + " " + b.S[0] + ")"}}
 	case "itoa":
 		v := env.eval(args[0])
 		return Value{T: tString, S: []string{"(strfromint " + v.S[0] + ")"}}
